@@ -192,3 +192,55 @@ Proof.
   split; [vm_compute; reflexivity|]. split; [vm_compute; reflexivity|].
   split; [eexists; split; vm_compute; reflexivity|vm_compute; reflexivity].
 Qed.
+
+(* ------------------------------------------------------------------ *)
+(** * One key, one argument - plain or sub-group *)
+
+Lemma key_free_spec ks k : key_free ks k = true <->
+  Forall (fun k' => key_eq k' k = false /\ key_mismatch k' k = false) ks.
+Proof.
+  unfold key_free. rewrite forallb_forall, Forall_forall. split; intros H x Hx; specialize (H x Hx).
+  - apply andb_true_iff in H. destruct H as [H1 H2]. apply negb_true_iff in H1, H2. auto.
+  - destruct H as [-> ->]. reflexivity.
+Qed.
+
+Lemma keys_distinct_pair : forall ks k1 k2 l1 l2 l3,
+  keys_distinct ks = true -> ks = l1 ++ k1 :: l2 ++ k2 :: l3 ->
+  key_eq k1 k2 = false /\ key_mismatch k1 k2 = false.
+Proof.
+  intros ks k1 k2 l1. revert ks. induction l1 as [|x l1 IH]; intros ks l2 l3 H ->; cbn [app keys_distinct] in H;
+    apply andb_true_iff in H; destruct H as [Hf Hd].
+  - apply key_free_spec in Hf. rewrite Forall_forall in Hf.
+    specialize (Hf k2 ltac:(apply in_or_app; right; left; reflexivity)).
+    rewrite key_eq_sym, key_mismatch_sym. exact Hf.
+  - eapply IH; eauto.
+Qed.
+
+(** with accepted definitions no word of the command line is the exact key
+    of a plain argument and of a sub-group argument at the same time *)
+Theorem sg_exact_key_one_argument c d ks cs k :
+  sg_keys_ok c = true ->
+  In d (args (sg_main c)) -> In (ks, cs) (sg_subs c) ->
+  ((exists ch, ch <> 0%N /\ k = key_of_char ch) \/ (exists w, w <> [] /\ k = {| kc := 0%N; kw := w |})) ->
+  key_eq (a_key d) k = true -> key_eq ks k = true -> False.
+Proof.
+  unfold sg_keys_ok. intros Hok Hd Hs Hk E1 E2.
+  apply in_split in Hd. destruct Hd as (a1 & a2 & Ha).
+  apply in_split in Hs. destruct Hs as (s1 & s2 & Hsb).
+  assert (Hp : key_eq (a_key d) ks = false /\ key_mismatch (a_key d) ks = false).
+  { eapply (keys_distinct_pair _ (a_key d) ks (map a_key a1) (map a_key a2 ++ map fst s1) (map fst s2) Hok).
+    rewrite Ha, Hsb, !map_app. cbn [map fst]. repeat rewrite <- app_assoc. cbn [app]. repeat rewrite <- app_assoc. reflexivity. }
+  destruct (single_key_unique (a_key d) ks k Hk E1 E2) as [H|H]; destruct Hp; congruence.
+Qed.
+
+(** ... and the two kinds of definition may come in any order: the test is symmetric *)
+Lemma key_free_sym_pair k1 k2 : key_free [k1] k2 = key_free [k2] k1.
+Proof. unfold key_free. cbn [forallb]. rewrite key_eq_sym, key_mismatch_sym. reflexivity. Qed.
+
+Example sg_keys_ok_example : sg_keys_ok sgx_cfg = true.
+Proof. vm_compute. reflexivity. Qed.
+Example sg_keys_taken_example :
+  sg_keys_ok {| sg_main := {| args := [sgx_flag {| kc := 111%N; kw := [111; 117; 116]%N |}]; gcons := []; abbr := true;
+                             fixed_notify := true |};
+                sg_subs := [(key_of_char 111%N, cfg_nil)] |} = false.
+Proof. vm_compute. reflexivity. Qed.
